@@ -171,6 +171,15 @@ add("C11", "TLC on LikelihoodCl.tla (value terms, exact gradient and Fisher metr
     "transformation in expectation over data by exact moment substitution.",
     TRUST + "float comparison 1e-10 relative; values are compared up to parameter-independent constants.")
 
+add("C31", "TLC on MultiGrid.tla (index maps of periodic, open and HEALPix grids; laws checked on every grid) + replay of every index of every level into the real grid classes + law checks on the real outputs of a wider family",
+    "Shapes, children, parents, neighbourhoods (and exact coordinates / volumes of the periodic grid) of every index of every level of 96 one-axis "
+    "grids (periodic, open with padding 0/1, HEALPix nested; shape0 2-5, splits 2/3, depth 1-2) are specified in MultiGrid.tla; TLC checks "
+    "parent(child) = index, children partition the next level, volume conservation and that neighbourhoods stay inside. Every index is evaluated in the "
+    "real Grid / OpenGrid / HEALPixGrid - alone and as one axis of a two-axis grid - and compared (children, parent, neighbourhood, coordinate, volume, "
+    "coordinate round trip). The laws of the statement are additionally evaluated on the real outputs alone for two-axis grids, MGrid products, "
+    "FlatGrid (serial/nest bijection and round trip), HEALPix, SimpleOpenGrid and logarithmic radial grids.",
+    TRUST + "one-axis specification (product grids act axis by axis); open-grid neighbourhoods are specified only where the refinement uses them.")
+
 
 def main():
     props = [json.loads(l) for l in open(os.path.join(HERE, "properties.jsonl"))]
